@@ -115,8 +115,14 @@ func newListValue(typ *meta.Type, v interface{}) (val.Value, error) {
 		return newListValue(typ.Resolve(), v)
 	case val.FmtUnion:
 		var firstErr error
-		for _, f := range typ.UnionFormats() {
-			cvt, err := val.Conv(f.List(), v)
+		for _, member := range typ.Union() {
+			var cvt val.Value
+			var err error
+			if member.Format().Single() == val.FmtUnion {
+				cvt, err = newListValue(member, v)
+			} else {
+				cvt, err = val.Conv(member.Format().List(), v)
+			}
 			if err == nil {
 				return cvt, nil
 			}
@@ -264,6 +270,14 @@ func toUnionList(typ *meta.Type, v interface{}) (val.Value, error) {
 		return nil, nil
 	}
 	for _, t := range typ.Union() {
+		if !t.Format().IsList() {
+			// members are shared with leafs when the union comes from a typedef and are
+			// then not in their list form: a list of values of the member's type
+			if result, err := newListValue(t, v); err == nil && result != nil {
+				return result, nil
+			}
+			continue
+		}
 		result, err := NewValue(t, v)
 		if err == nil {
 			return result, err
